@@ -41,14 +41,14 @@ Definition do_find_g (star : star_fn) (searches : list sid) : outcome (list stri
 Definition find_g (star : star_fn) (search : string) : outcome (list string) :=
   do x <- Sid L search;
   let is_alias := dmem (c_extension_alias (l_conf L)) (last (split_c "/" (s_string x)) "") in
-  if sid_bool x && negb (is_search L x) && negb is_alias then do_find_g star [x]
+  if sid_bool x && negb (is_search L x) && negb is_alias && negb (mem_c "?" (s_string x)) then do_find_g star [x]
   else do qs <- unfold_search L search false false; do_find_g star qs.
 
 (* Finder.find(sid_object): Sid(sid) keeps the type, unfold_search(sid) drops it (str(sid)) *)
 Definition find_g_sid (star : star_fn) (x0 : sid) : outcome (list string) :=
   do x <- sid_factory L (FromSid x0);
   let is_alias := dmem (c_extension_alias (l_conf L)) (last (split_c "/" (s_string x)) "") in
-  if sid_bool x && negb (is_search L x) && negb is_alias then do_find_g star [x]
+  if sid_bool x && negb (is_search L x) && negb is_alias && negb (mem_c "?" (s_string x)) then do_find_g star [x]
   else do qs <- unfold_search L (s_string x0) false false; do_find_g star qs.
 
 (** ** FindInPaths.star_search_simple (results as they come out of glob, here: sorted paths) *)
@@ -72,6 +72,10 @@ Definition paths_star (cfg : string) (searches : list sid) : outcome (list strin
                    do x <- sid_factory L (FromPath path cfg);
                    if negb (String.eqb (s_type x) (s_type q)) then Ok (fp, res) else
                    if negb (sid_bool x) then Ok (fp, res) else
+                   if negb (forallb (fun kv => let pat := replace ">" "*" (snd kv) in
+                                               let val := match sid_get x (fst kv) with Some w => w | None => "None" end in
+                                               fn_match (S (String.length pat + String.length val)) pat val)
+                                    (s_fields q)) then Ok (fp, res) else
                    Ok ((fp ++ [path])%list, (res ++ [s_string x])%list))
                 found (Ok (found_paths, results));
           Ok ((searched ++ [(s_type q, pattern)])%list, fst r, snd r)
